@@ -55,19 +55,38 @@ class P3(P1):
         return False
 
 
-@desper.event_handler('on_add', 'on_remove')
+@desper.event_handler(on_add='attached', on_remove='detached')
 class PH(Base):
+    """Handler processor; callbacks under *mapped* names, with decoys named
+    after the events (the library must go through the mapping)."""
+
     def __len__(self):      # a legal handler processor may be falsy
         return 0
 
-    def on_add(self):
+    def attached(self):
         self.log.append((self.label, 'on_add', self.world))
 
-    def on_remove(self):
+    def detached(self):
         self.log.append((self.label, 'on_remove', self.world))
 
+    def on_add(self, *args):
+        self.log.append((self.label, 'DECOY on_add called by name', None))
 
-CLASSES = {c.__name__: c for c in (P1, P2, P3, PH)}
+    def on_remove(self, *args):
+        self.log.append((self.label, 'DECOY on_remove called by name', None))
+
+
+class PS(Base):
+    """One-shot: removes itself from inside its own process()."""
+    priority = 1
+
+    def process(self, dt):
+        self.log.append((self.label, 'process', dt))
+        self.gone.append(self)
+        self.world.remove_processor(type(self))
+
+
+CLASSES = {c.__name__: c for c in (P1, P2, P3, PH, PS)}
 
 
 class Ctx:
@@ -77,7 +96,7 @@ class Ctx:
 class ProcDriver:
     name = 'processors'
 
-    def __init__(self, classes=('P1', 'P2', 'P3', 'PH'), prios=PRIOS,
+    def __init__(self, classes=('P1', 'P2', 'P3', 'PH', 'PS'), prios=PRIOS,
                  dts=(0, 0.5), toggles=True, max_postponed=3):
         self.toggles = toggles
         self.max_postponed = max_postponed
@@ -109,6 +128,7 @@ class ProcDriver:
         ctx.keep = []
         ctx.enabled = True
         ctx.postponed = []
+        ctx.selfremoved = []
         return ctx
 
     def ops(self, ctx):
@@ -139,6 +159,7 @@ class ProcDriver:
             if fresh:
                 ctx.counter += 1
                 inst = klass(f'{cname}#{ctx.counter}', ctx.log)
+                inst.gone = ctx.selfremoved
                 ctx.keep.append(inst)
             else:
                 inst = old[0]
@@ -230,6 +251,12 @@ class ProcDriver:
                                 op='process')
             got = ctx.log[mark:]
             expect = [(x[0].label, 'process', dt) for x in ctx.order]
+            for inst in ctx.selfremoved:
+                # a processor that removed itself during the frame: every
+                # processor of the frame was still called exactly once
+                ctx.hits['processor_removes_itself_in_frame'] += 1
+                ctx.order = [x for x in ctx.order if x[0] is not inst]
+            del ctx.selfremoved[:]
             if got != expect:
                 raise Violation(
                     'process_once_in_priority_order',
@@ -362,8 +389,9 @@ def run_bisect(case):
 
 def drivers(tier):
     if tier == 'quick':
-        return {'processors': (ProcDriver(classes=('P1', 'P2', 'P3', 'PH'),
-                                          prios=(None, -1, 0, 5)),
+        return {'processors': (ProcDriver(classes=('P1', 'P2', 'P3', 'PH', 'PS'),
+                                          prios=(None, 0, 5),
+                                          max_postponed=2, dts=(0.5,)),
                                dict(max_states=300000, time_budget=300))}
     return {'processors': (ProcDriver(), dict(max_states=2000000,
                                               time_budget=3000))}
@@ -375,13 +403,14 @@ def run(tier, rep):
         'an explicit priority is stored on the instance (documented: "a class '
         'or instance level priority"), so re-adding that instance without a '
         'priority keeps it',
-        'adding / removing processors from inside process() is outside the '
-        'alphabet',
+        'a processor may remove itself from inside its own process(); other '
+        'additions / removals from inside a frame are outside the alphabet',
     ]
     rep.require_hits(replace_same_type=1, priority_tie=1,
                      explicit_zero_or_negative=1, remove_by_supertype=1,
                      readd_attached_instance=1, insort_among_equal=1,
-                     postponed_processor_callback_released=1)
+                     postponed_processor_callback_released=1,
+                     processor_removes_itself_in_frame=1)
     for name, (driver, kw) in drivers(tier).items():
         kernel.explore(driver, rep, part=name, params=driver.params(), **kw)
     n = 5 if tier == 'quick' else 6
